@@ -43,8 +43,13 @@ def r1(c):
     c.check("C19.R1", ok, repo.loc(m, st), "add_entire/store-key", "the result is not stored under its own path", key_text="key")
 
     def ren(s):
-        return {"result.path in self.entire_results": "present", "self.entire_results[result.path].prio < result.prio": "higher"}.get(s, s)
+        return {"result.path in self.entire_results": "present", "self.entire_results[result.path].prio < result.prio": "higher",
+                "self.entire_results.get(result.path).prio < result.prio": "higher",
+                "self.entire_results.get(result.path) is None": "absent", "None is self.entire_results.get(result.path)": "absent",
+                "self.entire_results.get(result.path)": "present", "present is None": "absent", "None is present": "absent", "present.prio < result.prio": "higher"}.get(s, s)
     f = gm.formula(st, G.GuardEnv(rename=ren), alias=True)
+    # the table holds result objects: `get(path) is None` is "no result stored for the path"
+    f = G.substitute(f, {"absent": G.Not(G.Atom("present"))})
     f2 = G.And(*[g for g in (f[1:] if f[0] == "and" else [f]) if g != G.Atom("result.path")])
     spec = G.Or(G.Not(G.Atom("present")), G.Atom("higher"))
     c.check("C19.R1", G.equivalent(f2, spec), repo.loc(m, st), "add_entire/priority-guard", f"stored under {G.show(f2)}; expected path absent ∨ result.prio > stored.prio (strictly, same path)", key_text="prio-guard")
